@@ -1,4 +1,530 @@
-From Verif Require Import Base.Str Vars.ListEnviron.
+(* Proofs/ListEnvironProofs.v — proofs about Vars/ListEnviron.v *)
+From Coq Require Import Sorting.Sorted.
+From Verif Require Import Base.Str Vars.ListEnviron Proofs.StrProofs.
 
 Lemma func_get_none_iff : forall f name, func_get f name = None <-> f name = [].
 Proof. intros f name; unfold func_get; destruct (f name); split; congruence. Qed.
+
+Lemma func_get_some : forall f name v, func_get f name = Some v <-> (f name = v /\ v <> []).
+Proof.
+  intros f name v; unfold func_get; destruct (f name) as [|c r] eqn:E; split.
+  - discriminate.
+  - intros [H1 H2]. exfalso. apply H2. symmetry. exact H1.
+  - intros H. inversion H. split; [reflexivity|discriminate].
+  - intros [H1 H2]. rewrite H1. reflexivity.
+Qed.
+
+(* ---------------------------------------------------------------- keys *)
+
+Definition key := sort_key.
+
+Lemma sort_key_cut : forall p, sort_key p = match cut_byte EQ p with Some (n, _) => n | None => [] end.
+Proof.
+  intros p. unfold sort_key. destruct (cut_byte EQ p) as [[b a]|] eqn:E.
+  - destruct (cut_index _ _ _ _ E) as (H1 & H2 & _). rewrite H1. exact H2.
+  - rewrite (cut_none_index _ _ E). reflexivity.
+Qed.
+
+(* bind_of p n: the binding that pair p contributes for name n *)
+Definition bind_of (p n : str) : option str :=
+  match valid_pair p with
+  | Some (m, v) => if str_eqb m n then Some v else None
+  | None => None
+  end.
+
+Lemma spec_get_cons : forall p rest n,
+  spec_get (p :: rest) n = match spec_get rest n with Some v => Some v | None => bind_of p n end.
+Proof. intros. simpl. unfold bind_of. destruct (spec_get rest n); [reflexivity|]. destruct (valid_pair p) as [[m v]|]; reflexivity. Qed.
+
+Lemma spec_get_app : forall l1 l2 n,
+  spec_get (l1 ++ l2) n = match spec_get l2 n with Some v => Some v | None => spec_get l1 n end.
+Proof.
+  induction l1 as [|p l1 IH]; intros l2 n.
+  - simpl. destruct (spec_get l2 n); reflexivity.
+  - rewrite <- app_comm_cons. rewrite !spec_get_cons. rewrite IH. destruct (spec_get l2 n); reflexivity.
+Qed.
+
+Lemma valid_pair_key : forall p m v, valid_pair p = Some (m, v) ->
+  key p = m /\ m <> [] /\ cut_byte EQ p = Some (m, v) /\ pair_name p = m /\ pair_value p = v.
+Proof.
+  intros p m v H. unfold valid_pair in H. unfold key, pair_name, pair_value. rewrite sort_key_cut.
+  destruct (cut_byte EQ p) as [[b a]|] eqn:E; [|discriminate].
+  destruct b as [|x b]; [discriminate|]. inversion H; subst. repeat split; auto. discriminate.
+Qed.
+
+Lemma bind_of_some_key : forall p n v, bind_of p n = Some v -> key p = n /\ n <> [].
+Proof.
+  unfold bind_of. intros p n v H. destruct (valid_pair p) as [[m w]|] eqn:E; [|discriminate].
+  destruct (str_eqb m n) eqn:Em; [|discriminate]. apply str_eqb_true in Em. subst.
+  destruct (valid_pair_key _ _ _ E) as (H1 & H2 & _). auto.
+Qed.
+
+Lemma spec_get_none_if_no_key : forall l n,
+  Forall (fun y => key y <> n) l -> spec_get l n = None.
+Proof.
+  induction l as [|p l IH]; intros n H; [reflexivity|].
+  inversion H; subst. rewrite spec_get_cons, (IH _ H3).
+  destruct (bind_of p n) eqn:E; [|reflexivity]. apply bind_of_some_key in E. tauto.
+Qed.
+
+(* ---------------------------------------------------------------- sorting *)
+
+Definition le_key (a b : str) : Prop := cmp_str (key a) (key b) <> Gt.
+
+Lemma insert_stable_forall : forall (P : str -> Prop) x l, Forall P l -> P x -> Forall P (insert_stable x l).
+Proof.
+  intros P x l H Hx. induction H as [|y l Hy Hl IH]; simpl.
+  - constructor; [exact Hx|constructor].
+  - destruct (cmp_str (sort_key x) (sort_key y)); repeat (constructor; try assumption).
+Qed.
+
+Lemma insert_stable_sorted : forall x l, StronglySorted le_key l -> StronglySorted le_key (insert_stable x l).
+Proof.
+  intros x l H. induction H as [|y l Hs IH Hall]; simpl.
+  - constructor; constructor.
+  - destruct (cmp_str (sort_key x) (sort_key y)) eqn:E.
+    + constructor; [exact IH|]. apply insert_stable_forall; [exact Hall|].
+      unfold le_key, key. rewrite (cmp_str_antisym (sort_key x)), E. simpl. congruence.
+    + constructor.
+      * constructor; assumption.
+      * constructor.
+        -- unfold le_key, key. rewrite E. congruence.
+        -- eapply Forall_impl; [|exact Hall]. intros z Hz. unfold le_key, key in *.
+           rewrite (cmp_str_lt_le_trans _ _ _ E Hz). congruence.
+    + constructor; [exact IH|]. apply insert_stable_forall; [exact Hall|].
+      unfold le_key, key. rewrite (cmp_str_antisym (sort_key x)), E. simpl. congruence.
+Qed.
+
+Lemma fold_insert_sorted : forall l acc, StronglySorted le_key acc ->
+  StronglySorted le_key (fold_left (fun acc x => insert_stable x acc) l acc).
+Proof. induction l as [|x l IH]; simpl; intros acc H; [exact H|]. apply IH. apply insert_stable_sorted. exact H. Qed.
+
+Lemma sort_stable_sorted : forall l, StronglySorted le_key (sort_stable l).
+Proof. intros. apply fold_insert_sorted. constructor. Qed.
+
+(* stability, expressed through the spec lookup: inserting x behaves like appending x *)
+Lemma spec_get_insert : forall x l n, StronglySorted le_key l ->
+  spec_get (insert_stable x l) n = spec_get (l ++ [x]) n.
+Proof.
+  intros x l n H. induction H as [|y l Hs IH Hall]; [reflexivity|].
+  simpl insert_stable. destruct (cmp_str (sort_key x) (sort_key y)) eqn:E.
+  - rewrite <- app_comm_cons, !spec_get_cons, IH. reflexivity.
+  - (* x goes first: nothing after it has x's key *)
+    rewrite spec_get_cons, spec_get_app. simpl (spec_get [x] n).
+    change (match valid_pair x with Some (n0, v) => if str_eqb n0 n then Some v else None | None => None end) with (bind_of x n).
+    destruct (bind_of x n) eqn:Eb; [|destruct (spec_get (y :: l) n); reflexivity].
+    apply bind_of_some_key in Eb. destruct Eb as [Ek _].
+    rewrite spec_get_none_if_no_key; [reflexivity|].
+    constructor.
+    + intros Hc. unfold key in *. rewrite Hc, Ek, cmp_str_refl in E. discriminate.
+    + eapply Forall_impl; [|exact Hall]. intros z Hz Hc. unfold le_key, key in *.
+      pose proof (cmp_str_lt_le_trans _ _ _ E Hz) as Hlt. rewrite Hc, Ek, cmp_str_refl in Hlt. discriminate.
+  - rewrite <- app_comm_cons, !spec_get_cons, IH. reflexivity.
+Qed.
+
+Lemma spec_get_fold_insert : forall l acc n, StronglySorted le_key acc ->
+  spec_get (fold_left (fun acc x => insert_stable x acc) l acc) n = spec_get (acc ++ l) n.
+Proof.
+  induction l as [|x l IH]; simpl; intros acc n H.
+  - rewrite app_nil_r. reflexivity.
+  - rewrite IH by (apply insert_stable_sorted; exact H).
+    rewrite spec_get_app, spec_get_insert by exact H.
+    replace (acc ++ x :: l) with ((acc ++ [x]) ++ l) by (rewrite <- app_assoc; reflexivity).
+    rewrite (spec_get_app (acc ++ [x]) l). reflexivity.
+Qed.
+
+Lemma spec_get_sort_stable : forall l n, spec_get (sort_stable l) n = spec_get l n.
+Proof. intros. unfold sort_stable. rewrite spec_get_fold_insert by constructor. reflexivity. Qed.
+
+(* ---------------------------------------------------------------- dedup loop *)
+
+Definition lt_str (a b : str) : Prop := cmp_str a b = Lt.
+Definition gt_str (a b : str) : Prop := cmp_str b a = Lt.
+Definition all_valid (l : list str) : Prop := Forall (fun p => valid_pair p <> None) l.
+
+(* the good output: strictly increasing names, all valid *)
+Definition good (out : list str) : Prop :=
+  all_valid out /\ StronglySorted lt_str (map key out).
+
+Lemma bind_of_invalid : forall p n, valid_pair p = None -> bind_of p n = None.
+Proof. intros p n H. unfold bind_of. rewrite H. reflexivity. Qed.
+
+Lemma spec_get_skip : forall l1 p l2 n, bind_of p n = None ->
+  spec_get (l1 ++ p :: l2) n = spec_get (l1 ++ l2) n.
+Proof.
+  intros l1 p l2 n H. rewrite !spec_get_app, spec_get_cons, H.
+  destruct (spec_get l2 n); reflexivity.
+Qed.
+
+Lemma bind_of_same_key : forall p0 p n v, valid_pair p <> None -> key p0 = key p ->
+  bind_of p0 n = Some v -> exists v', bind_of p n = Some v'.
+Proof.
+  intros p0 p n v Hv Hk H. apply bind_of_some_key in H. destruct H as [H _].
+  unfold bind_of. destruct (valid_pair p) as [[m w]|] eqn:E; [|congruence].
+  destruct (valid_pair_key _ _ _ E) as (Hm & _).
+  assert (Hmn : m = n) by congruence. rewrite (proj2 (str_eqb_true m n) Hmn). eauto.
+Qed.
+
+Lemma spec_get_replace : forall l1 p0 p l2 n, valid_pair p <> None -> key p0 = key p ->
+  spec_get (l1 ++ p0 :: p :: l2) n = spec_get (l1 ++ p :: l2) n.
+Proof.
+  intros l1 p0 p l2 n Hv Hk. rewrite !spec_get_app, !spec_get_cons.
+  destruct (spec_get l2 n); [reflexivity|].
+  destruct (bind_of p n) eqn:E; [reflexivity|].
+  destruct (bind_of p0 n) eqn:E0; [|reflexivity].
+  destruct (bind_of_same_key _ _ _ _ Hv Hk E0) as [v' Hv']. congruence.
+Qed.
+
+Lemma ssorted_rev_gt : forall l, StronglySorted gt_str l -> StronglySorted lt_str (rev l).
+Proof.
+  induction l as [|x l IH]; intros H; [constructor|].
+  inversion H; subst. simpl.
+  specialize (IH H2).
+  assert (G : forall l', StronglySorted lt_str l' -> Forall (fun y => lt_str y x) l' -> StronglySorted lt_str (l' ++ [x])).
+  { induction l' as [|y l' IHl]; intros Hs Hf; simpl.
+    - constructor; constructor.
+    - inversion Hs; inversion Hf; subst. constructor; [apply IHl; assumption|].
+      apply Forall_app. split; [assumption|constructor; [assumption|constructor]]. }
+  apply G; [exact IH|].
+  apply Forall_rev. eapply Forall_impl; [|exact H3]. intros y Hy. exact Hy.
+Qed.
+
+(* invariant of the loop *)
+Record loop_inv (l acc : list str) (last : str) : Prop := {
+  li_head : (acc = [] /\ last = []) \/ (exists p acc', acc = p :: acc' /\ key p = last /\ last <> []);
+  li_valid : all_valid acc;
+  li_dec : StronglySorted gt_str (map key acc);
+  li_rest_sorted : StronglySorted le_key l;
+  li_rest_ge : Forall (fun y => cmp_str last (key y) <> Gt) l;
+}.
+
+Lemma dedup_loop_ok : forall l acc last, loop_inv l acc last ->
+  exists out, dedup_loop l acc last = Ok out /\ good out /\
+              forall n, spec_get out n = spec_get (rev acc ++ l) n.
+Proof.
+  induction l as [|p rest IH]; intros acc last [Hh Hv Hd Hs Hg].
+  - exists (rev acc). simpl. split; [reflexivity|]. split.
+    + split; [apply Forall_rev; exact Hv|]. rewrite map_rev. apply ssorted_rev_gt. exact Hd.
+    + intros n. rewrite app_nil_r. reflexivity.
+  - inversion Hs as [|? ? Hs' Hall]; subst. inversion Hg as [|? ? Hgp Hg']; subst.
+    simpl dedup_loop.
+    destruct (cut_byte EQ p) as [[name val]|] eqn:Ec.
+    2:{ (* no '=' *)
+        assert (Hinv : valid_pair p = None) by (unfold valid_pair; rewrite Ec; reflexivity).
+        destruct (IH acc last) as (out & Ho & Hgood & Hspec); [constructor; assumption|].
+        exists out. repeat split; try apply Hgood; [exact Ho|].
+        intros n. rewrite Hspec. symmetry. apply spec_get_skip. apply bind_of_invalid. exact Hinv. }
+    destruct name as [|c name].
+    { assert (Hinv : valid_pair p = None) by (unfold valid_pair; rewrite Ec; reflexivity).
+      destruct (IH acc last) as (out & Ho & Hgood & Hspec); [constructor; assumption|].
+      exists out. repeat split; try apply Hgood; [exact Ho|].
+      intros n. rewrite Hspec. symmetry. apply spec_get_skip. apply bind_of_invalid. exact Hinv. }
+    assert (Hval : valid_pair p = Some (c :: name, val)) by (unfold valid_pair; rewrite Ec; reflexivity).
+    destruct (valid_pair_key _ _ _ Hval) as (Hk & Hne & _).
+    assert (Hvp : valid_pair p <> None) by congruence.
+    assert (Hrest_ge : Forall (fun y => cmp_str (key p) (key y) <> Gt) rest).
+    { eapply Forall_impl; [|exact Hall]. intros y Hy. exact Hy. }
+    destruct (cmp_str last (c :: name)) eqn:Ecmp.
+    + (* duplicate name: replace the previous element *)
+      apply cmp_str_eq in Ecmp.
+      destruct Hh as [[_ Hl]|(p0 & acc' & Hacc & Hk0 & Hl)]; [congruence|]. subst acc.
+      pose proof (Forall_inv Hv) as Hv0. pose proof (Forall_inv_tail Hv) as Hv'.
+      simpl in Hd. apply StronglySorted_inv in Hd. destruct Hd as [Hd' Hd0].
+      destruct (IH (p :: acc') last) as (out & Ho & Hgood & Hspec).
+      { constructor.
+        - right. exists p, acc'. repeat split; congruence.
+        - constructor; assumption.
+        - simpl. rewrite Hk, <- Ecmp, <- Hk0. constructor; assumption.
+        - assumption.
+        - assumption. }
+      exists out. split; [exact Ho|]. split; [exact Hgood|].
+      intros n. rewrite Hspec. simpl rev. rewrite <- !app_assoc. simpl.
+      symmetry. apply spec_get_replace; [exact Hvp|congruence].
+    + (* new name *)
+      destruct (IH (p :: acc) (c :: name)) as (out & Ho & Hgood & Hspec).
+      { constructor.
+        - right. exists p, acc. repeat split; congruence.
+        - constructor; assumption.
+        - simpl. constructor; [exact Hd|]. rewrite Hk.
+          destruct Hh as [[Ha _]|(p0 & acc' & Hacc & Hk0 & Hl)]; [subst; constructor|].
+          subst acc. simpl in *. pose proof (StronglySorted_inv Hd) as [Hd' Hd0].
+          constructor.
+          * unfold gt_str. rewrite Hk0. exact Ecmp.
+          * eapply Forall_impl; [|exact Hd0]. intros k Hk'. unfold gt_str in *.
+            eapply cmp_str_lt_trans; [exact Hk'|]. rewrite Hk0. exact Ecmp.
+        - assumption.
+        - rewrite <- Hk. exact Hrest_ge. }
+      exists out. split; [exact Ho|]. split; [exact Hgood|].
+      intros n. rewrite Hspec. simpl rev. rewrite <- app_assoc. reflexivity.
+    + (* last > name: impossible, the rest is sorted above last *)
+      rewrite Hk in Hgp. congruence.
+Qed.
+
+Theorem list_environ_ok : forall pairs,
+  exists out, list_environ pairs = Ok out /\ good out /\ forall n, spec_get out n = spec_get pairs n.
+Proof.
+  intros pairs. unfold list_environ.
+  destruct (dedup_loop_ok (sort_stable pairs) [] []) as (out & Ho & Hgood & Hspec).
+  { constructor.
+    - left. auto.
+    - constructor.
+    - constructor.
+    - apply sort_stable_sorted.
+    - apply Forall_forall. intros y _. apply cmp_str_nil_l. }
+  exists out. split; [exact Ho|]. split; [exact Hgood|].
+  intros n. rewrite Hspec. simpl. apply spec_get_sort_stable.
+Qed.
+
+(* ---------------------------------------------------------------- Each *)
+
+Lemma good_tail : forall p rest, good (p :: rest) -> good rest /\ valid_pair p <> None /\
+  Forall (fun y => cmp_str (key p) (key y) = Lt) rest.
+Proof.
+  intros p rest [Hv Hs]. simpl in Hs. apply StronglySorted_inv in Hs. destruct Hs as [Hs Hf].
+  repeat split.
+  - exact (Forall_inv_tail Hv).
+  - exact Hs.
+  - exact (Forall_inv Hv).
+  - clear -Hf. induction rest as [|y rest IH]; [constructor|].
+    simpl in Hf. constructor; [exact (Forall_inv Hf)|]. apply IH. exact (Forall_inv_tail Hf).
+Qed.
+
+Lemma lt_forall_neq : forall k l, Forall (fun y => cmp_str k (key y) = Lt) l -> Forall (fun y => key y <> k) l.
+Proof.
+  intros k l H. eapply Forall_impl; [|exact H]. intros y Hy Hc. simpl in Hy. rewrite Hc, cmp_str_refl in Hy. discriminate.
+Qed.
+
+Lemma each_good : forall out, good out ->
+  exists l, each out = Ok l /\ map fst l = map key out /\
+            forall n v, In (n, v) l <-> spec_get out n = Some v.
+Proof.
+  induction out as [|p rest IH]; intros Hg.
+  - exists []. simpl. repeat split; auto; intros; try contradiction; discriminate.
+  - destruct (good_tail _ _ Hg) as (Hg' & Hvp & Hlt).
+    destruct (IH Hg') as (l & Hl & Hm & Hin).
+    destruct (valid_pair p) as [[m w]|] eqn:Ev; [|congruence].
+    destruct (valid_pair_key _ _ _ Ev) as (Hk & Hne & Hc & _).
+    exists ((m, w) :: l). simpl each. rewrite Hc, Hl. split; [reflexivity|]. split.
+    + simpl. rewrite Hk, Hm. reflexivity.
+    + intros n v. rewrite spec_get_cons. simpl In. rewrite Hin. split.
+      * intros [Heq|Hs].
+        -- inversion Heq; subst n v.
+           rewrite spec_get_none_if_no_key by (rewrite <- Hk; apply lt_forall_neq; exact Hlt).
+           unfold bind_of. rewrite Ev, str_eqb_refl. reflexivity.
+        -- rewrite Hs. reflexivity.
+      * destruct (spec_get rest n) eqn:Es.
+        -- intros H. right. exact H.
+        -- unfold bind_of. rewrite Ev. destruct (str_eqb m n) eqn:Em; [|discriminate].
+           apply str_eqb_true in Em. intros H. inversion H; subst. left. reflexivity.
+Qed.
+
+(* ---------------------------------------------------------------- Get *)
+
+Section BSearch.
+  Variable f : str -> comparison.
+
+  Definition split_at (x : list str) (k : nat) : Prop :=
+    (forall i e, i < k -> nth_error x i = Some e -> f e = Lt) /\
+    (forall i e, k <= i -> nth_error x i = Some e -> f e <> Lt).
+
+  Lemma div2_bounds : forall i j, i < j -> i <= Nat.div2 (i + j) < j.
+  Proof.
+    intros i j H. rewrite Nat.div2_div.
+    split.
+    - apply Nat.div_le_lower_bound; lia.
+    - apply Nat.div_lt_upper_bound; lia.
+  Qed.
+
+  Lemma bsearch_loop_correct : forall x k, split_at x k -> k <= length x ->
+    forall fuel i j, i <= k -> k <= j -> j <= length x -> j - i < fuel ->
+    bsearch_loop fuel (fun e => Ok (f e)) x i j = Ok k.
+  Proof.
+    intros x k [H1 H2] Hk. induction fuel as [|fuel IH]; intros i j Hi Hj Hjl Hf; [lia|].
+    simpl. destruct (Nat.ltb i j) eqn:Elt.
+    - apply Nat.ltb_lt in Elt. pose proof (div2_bounds i j Elt) as [Hb1 Hb2].
+      set (h := Nat.div2 (i + j)) in *.
+      destruct (nth_error x h) as [e|] eqn:En.
+      2:{ apply nth_error_None in En. lia. }
+      destruct (f e) eqn:Ef.
+      + apply IH; try lia. destruct (Nat.le_gt_cases k h) as [?|Hc]; [assumption|].
+        rewrite (H1 h e Hc En) in Ef. discriminate.
+      + apply IH; try lia. destruct (Nat.le_gt_cases k h) as [Hc|?]; [|lia].
+        exfalso. apply (H2 h e Hc En). exact Ef.
+      + apply IH; try lia. destruct (Nat.le_gt_cases k h) as [?|Hc]; [assumption|].
+        rewrite (H1 h e Hc En) in Ef. discriminate.
+    - apply Nat.ltb_ge in Elt. f_equal. lia.
+  Qed.
+
+  Fixpoint lt_count (l : list str) : nat :=
+    match l with
+    | [] => 0
+    | e :: r => match f e with Lt => S (lt_count r) | _ => 0 end
+    end.
+
+  Lemma lt_count_le : forall l, lt_count l <= length l.
+  Proof. induction l as [|e r IH]; simpl; [lia|]. destruct (f e); lia. Qed.
+End BSearch.
+
+Definition fname (name : str) (e : str) : comparison := cmp_str (pair_name e) name.
+
+Lemma good_pair_name : forall p, valid_pair p <> None -> pair_name p = key p.
+Proof.
+  intros p H. destruct (valid_pair p) as [[m w]|] eqn:E; [|congruence].
+  destruct (valid_pair_key _ _ _ E) as (H1 & _ & _ & H4 & _). congruence.
+Qed.
+
+Lemma good_split_at : forall name out, good out -> split_at (fname name) out (lt_count (fname name) out).
+Proof.
+  intros name. induction out as [|p rest IH]; intros Hg.
+  - split; intros i e Hi Hn; destruct i; discriminate.
+  - destruct (good_tail _ _ Hg) as (Hg' & Hvp & Hlt). specialize (IH Hg'). destruct IH as [IH1 IH2].
+    simpl. destruct (fname name p) eqn:Ef.
+    + split; [intros i e Hi; lia|]. intros i e _ Hn. destruct i as [|i]; simpl in Hn.
+      * inversion Hn; subst. congruence.
+      * apply nth_error_In in Hn. rewrite Forall_forall in Hlt. specialize (Hlt e Hn).
+        unfold fname in *. rewrite (good_pair_name p Hvp) in Ef. apply cmp_str_eq in Ef. subst name.
+        assert (Hve : valid_pair e <> None).
+        { destruct Hg' as [Hv' _]. unfold all_valid in Hv'. rewrite Forall_forall in Hv'. auto. }
+        rewrite (good_pair_name e Hve). rewrite (proj1 (cmp_str_lt_gt _ _) Hlt). discriminate.
+    + split.
+      * intros i e Hi Hn. destruct i as [|i]; simpl in Hn; [inversion Hn; subst; exact Ef|].
+        apply (IH1 i e); [lia|exact Hn].
+      * intros i e Hi Hn. destruct i as [|i]; [lia|]. simpl in Hn. apply (IH2 i e); [lia|exact Hn].
+    + split; [intros i e Hi; lia|]. intros i e _ Hn. destruct i as [|i]; simpl in Hn.
+      * inversion Hn; subst. congruence.
+      * apply nth_error_In in Hn. rewrite Forall_forall in Hlt. specialize (Hlt e Hn).
+        unfold fname in *. rewrite (good_pair_name p Hvp) in Ef.
+        assert (Hve : valid_pair e <> None).
+        { destruct Hg' as [Hv' _]. unfold all_valid in Hv'. rewrite Forall_forall in Hv'. auto. }
+        rewrite (good_pair_name e Hve).
+        apply cmp_str_lt_gt in Ef.
+        rewrite (proj1 (cmp_str_lt_gt _ _) (cmp_str_lt_trans _ _ _ Ef Hlt)). discriminate.
+Qed.
+
+Lemma good_lookup : forall name out, good out ->
+  match nth_error out (lt_count (fname name) out) with
+  | Some e => match fname name e with
+              | Eq => spec_get out name = Some (pair_value e)
+              | _ => spec_get out name = None
+              end
+  | None => spec_get out name = None
+  end.
+Proof.
+  intros name. induction out as [|p rest IH]; intros Hg; [reflexivity|].
+  destruct (good_tail _ _ Hg) as (Hg' & Hvp & Hlt). specialize (IH Hg').
+  destruct (valid_pair p) as [[m w]|] eqn:Ev; [|congruence].
+  destruct (valid_pair_key _ _ _ Ev) as (Hk & Hne & Hc & Hpn & Hpv).
+  simpl lt_count. rewrite spec_get_cons. destruct (fname name p) eqn:Ef.
+  - cbn [nth_error]. rewrite Ef. unfold fname in Ef. rewrite Hpn in Ef. apply cmp_str_eq in Ef. rewrite Ef in Hk, Ev.
+    rewrite spec_get_none_if_no_key by (rewrite <- Hk; apply lt_forall_neq; exact Hlt).
+    unfold bind_of. rewrite Ev, str_eqb_refl, Hpv. reflexivity.
+  - cbn [nth_error].
+    assert (Hb : bind_of p name = None).
+    { unfold bind_of. rewrite Ev. destruct (str_eqb m name) eqn:Em; [|reflexivity].
+      apply str_eqb_true in Em. rewrite Em in Hpn. unfold fname in Ef. rewrite Hpn, cmp_str_refl in Ef. discriminate. }
+    rewrite Hb.
+    destruct (nth_error rest (lt_count (fname name) rest)) as [e|].
+    + destruct (fname name e); rewrite IH; reflexivity.
+    + rewrite IH. reflexivity.
+  - cbn [nth_error]. rewrite Ef.
+    unfold fname in Ef. rewrite Hpn in Ef. apply cmp_str_lt_gt in Ef.
+    rewrite spec_get_none_if_no_key.
+    + unfold bind_of. rewrite Ev. destruct (str_eqb m name) eqn:Em; [|reflexivity].
+      apply str_eqb_true in Em. rewrite Em, cmp_str_refl in Ef. discriminate.
+    + eapply Forall_impl; [|exact Hlt]. intros y Hy Hcy. simpl in Hy. rewrite Hk in Hy.
+      pose proof (cmp_str_lt_trans _ _ _ Ef Hy) as Hc2. rewrite Hcy, cmp_str_refl in Hc2. discriminate.
+Qed.
+
+Lemma get_good : forall out name, good out -> get out name = Ok (spec_get out name).
+Proof.
+  intros out name Hg. unfold get, bsearch, get_cmp.
+  pose proof (good_split_at name out Hg) as Hs.
+  pose proof (lt_count_le (fname name) out) as Hle.
+  change (fun pair : str => Ok (cmp_str (pair_name pair) name)) with (fun e : str => @Ok comparison (fname name e)).
+  rewrite (bsearch_loop_correct (fname name) out _ Hs Hle) by lia.
+  pose proof (good_lookup name out Hg) as Hl.
+  destruct (nth_error out (lt_count (fname name) out)) as [e|] eqn:En.
+  - change (cmp_str (pair_name e) name) with (fname name e).
+    destruct (fname name e) eqn:Ef; rewrite Hl; try reflexivity. rewrite En. reflexivity.
+  - rewrite Hl. reflexivity.
+Qed.
+
+(* ---------------------------------------------------------------- API-level theorems *)
+
+Theorem api_get_spec : forall pairs name, api_get pairs name = Ok (spec_get pairs name).
+Proof.
+  intros pairs name. unfold api_get.
+  destruct (list_environ_ok pairs) as (out & Ho & Hg & Hspec). rewrite Ho.
+  rewrite get_good by exact Hg. rewrite Hspec. reflexivity.
+Qed.
+
+Theorem api_each_spec : forall pairs,
+  exists l, api_each pairs = Ok l /\
+            StronglySorted lt_str (map fst l) /\
+            forall n v, In (n, v) l <-> spec_get pairs n = Some v.
+Proof.
+  intros pairs. unfold api_each.
+  destruct (list_environ_ok pairs) as (out & Ho & Hg & Hspec). rewrite Ho.
+  destruct (each_good out Hg) as (l & Hl & Hm & Hin).
+  exists l. split; [exact Hl|]. split.
+  - rewrite Hm. apply Hg.
+  - intros n v. rewrite Hin, Hspec. reflexivity.
+Qed.
+
+(* strictly increasing names: no name twice, and sorted in plain string order *)
+Lemma ssorted_lt_nodup : forall l, StronglySorted lt_str l -> NoDup l.
+Proof.
+  induction l as [|x l IH]; intros H; [constructor|].
+  apply StronglySorted_inv in H. destruct H as [Hs Hf]. constructor; [|apply IH; exact Hs].
+  intros Hin. rewrite Forall_forall in Hf. specialize (Hf x Hin). unfold lt_str in Hf.
+  rewrite cmp_str_refl in Hf. discriminate.
+Qed.
+
+Lemma ssorted_lt_sorted_names : forall l, StronglySorted lt_str l -> sorted_names l = true.
+Proof.
+  induction l as [|x l IH]; intros H; [reflexivity|].
+  apply StronglySorted_inv in H. destruct H as [Hs Hf]. simpl. destruct l as [|y l]; [reflexivity|].
+  pose proof (Forall_inv Hf) as Hxy. unfold lt_str in Hxy. rewrite Hxy. apply IH. exact Hs.
+Qed.
+
+(* spec_get agrees with "the last valid pair with that name" *)
+Lemma bind_of_none_iff : forall q n, bind_of q n = None <-> forall w, valid_pair q <> Some (n, w).
+Proof.
+  intros q n. unfold bind_of. destruct (valid_pair q) as [[m w]|] eqn:E.
+  - destruct (str_eqb m n) eqn:Em.
+    + apply str_eqb_true in Em. subst m. split; [discriminate|]. intros H. exfalso. apply (H w). reflexivity.
+    + split; [|reflexivity]. intros _ w' Hc. inversion Hc; subst. rewrite str_eqb_refl in Em. discriminate.
+  - split; [|reflexivity]. intros _ w'. discriminate.
+Qed.
+
+Lemma spec_get_none_iff : forall l n, spec_get l n = None <->
+  Forall (fun q => forall w, valid_pair q <> Some (n, w)) l.
+Proof.
+  induction l as [|q l IH]; intros n.
+  - simpl. split; [constructor|reflexivity].
+  - rewrite spec_get_cons. split.
+    + destruct (spec_get l n) eqn:Es; [discriminate|]. intros Hb. constructor.
+      * apply bind_of_none_iff. exact Hb.
+      * apply IH. exact Es.
+    + intros H. rewrite (proj2 (IH n) (Forall_inv_tail H)). apply bind_of_none_iff. exact (Forall_inv H).
+Qed.
+
+Lemma spec_get_some_iff : forall pairs n v, spec_get pairs n = Some v <->
+  exists l1 p l2, pairs = l1 ++ p :: l2 /\ valid_pair p = Some (n, v) /\
+                  Forall (fun q => forall w, valid_pair q <> Some (n, w)) l2.
+Proof.
+  induction pairs as [|p rest IH]; intros n v.
+  - simpl. split; [discriminate|]. intros (l1 & p & l2 & H & _). destruct l1; discriminate.
+  - rewrite spec_get_cons. split.
+    + destruct (spec_get rest n) as [v'|] eqn:Es.
+      * intros H. inversion H; subst v'. apply IH in Es. destruct Es as (l1 & q & l2 & H1 & H2 & H3).
+        exists (p :: l1), q, l2. subst rest. auto.
+      * intros Hb. unfold bind_of in Hb. destruct (valid_pair p) as [[m w]|] eqn:Ev; [|discriminate].
+        destruct (str_eqb m n) eqn:Em; [|discriminate]. apply str_eqb_true in Em. inversion Hb; subst.
+        exists [], p, rest. repeat split; auto. apply spec_get_none_iff. exact Es.
+    + intros (l1 & q & l2 & H1 & H2 & H3). destruct l1 as [|p' l1]; simpl in H1; inversion H1; subst.
+      * rewrite (proj2 (spec_get_none_iff l2 n) H3). unfold bind_of. rewrite H2, str_eqb_refl. reflexivity.
+      * assert (Es : spec_get (l1 ++ q :: l2) n = Some v).
+        { apply IH. exists l1, q, l2. auto. }
+        rewrite Es. reflexivity.
+Qed.
